@@ -10,6 +10,13 @@ import (
 	"sort"
 	"strings"
 
+	"github.com/bnb-chain/tss-lib/v2/common"
+	"github.com/bnb-chain/tss-lib/v2/crypto"
+	"github.com/bnb-chain/tss-lib/v2/crypto/mta"
+	"github.com/bnb-chain/tss-lib/v2/crypto/schnorr"
+	eckeygen "github.com/bnb-chain/tss-lib/v2/ecdsa/keygen"
+	ecsigning "github.com/bnb-chain/tss-lib/v2/ecdsa/signing"
+
 	"github.com/bnb-chain/tss-lib/v2/tss"
 	"google.golang.org/protobuf/reflect/protoreflect"
 
@@ -72,7 +79,23 @@ func coveredFieldKind(typ, field, kind string) bool {
 	return false
 }
 
+// negField: fields holding a scalar modulo the group order, or the point coordinate that changes sign when
+// the point is negated (y on secp256k1, x on edwards25519); "neg" replaces the value by its negative.
+func negField(run protoRun, name string) bool {
+	switch name {
+	case "share", "proof_t", "v_proof_t", "v_proof_u":
+		return true
+	case "proof_alpha_y", "v_proof_alpha_y":
+		return !run.edd()
+	case "proof_alpha_x", "v_proof_alpha_x":
+		return run.edd()
+	}
+	return false
+}
+
 type faultRun struct {
+	redealPoly []*big.Int // the polynomial the deviator deals instead of its own (coordinated strategy)
+	redealCmt  *cmtPair
 	commitD   []*big.Int // decommitment the deviator will reveal (coordinated strategy)
 	x         *runCtx
 	c         faultCase
@@ -137,6 +160,12 @@ func (fr *faultRun) alter(d *sim.Delivery) ([]byte, bool) {
 	if strings.HasPrefix(f.Kind, "commit:") {
 		return fr.alterCommitReveal(d)
 	}
+	if strings.HasPrefix(f.Kind, "mta-") {
+		return fr.alterMtA(d)
+	}
+	if strings.HasPrefix(f.Kind, "redeal:") {
+		return fr.alterRedeal(d)
+	}
 	var sumOthers *big.Int
 	if f.Kind == "sum-zero" { // a rushing deviator: its value cancels the sum of everybody else's
 		sumOthers = new(big.Int)
@@ -170,6 +199,13 @@ func (fr *faultRun) alter(d *sim.Delivery) ([]byte, bool) {
 			if new(big.Int).SetBytes(nv).Cmp(honest) == 0 {
 				nv[len(nv)-1] ^= 1
 			}
+		case "neg": // the negated scalar (q - v) or point (the coordinate whose sign flips under negation)
+			mod := cv.Q
+			if strings.HasSuffix(f.Field.Name, "_x") || strings.HasSuffix(f.Field.Name, "_y") {
+				mod = cv.P
+			}
+			v := new(big.Int).Sub(mod, new(big.Int).Mod(honest, mod))
+			nv = v.Bytes()
 		case "other":
 			nv = readField(oe.Bytes, f.Field)
 			if nv == nil {
@@ -241,6 +277,9 @@ func (fr *faultRun) install() {
 	match := func(d *sim.Delivery) bool {
 		if d.E.From != f.Deviator {
 			return false
+		}
+		if strings.HasPrefix(f.Kind, "redeal:") {
+			return strings.HasSuffix(d.E.Type, "KGRound1Message") || strings.HasSuffix(d.E.Type, "KGRound2Message1") || strings.HasSuffix(d.E.Type, "KGRound2Message2") || strings.HasSuffix(d.E.Type, "ecdsa.keygen.KGRound3Message")
 		}
 		if f.Reveal != "" && d.E.Type == f.Reveal {
 			return true
@@ -503,7 +542,13 @@ func runFault(c faultCase, mode string) ev.Outcome {
 	}
 	fr.install()
 	x.net.Run(sim.FIFO{}, 200000)
-	covered := coveredFieldKind(c.F.MsgType, c.F.Field.Name, c.F.Kind) && (c.F.Kind == "+1" || c.F.Kind == "rand" || c.F.Kind == "other" || c.F.Kind == "remove" || strings.HasPrefix(c.F.Kind, "commit:") || strings.HasPrefix(c.F.Kind, "bits-"))
+	if strings.HasPrefix(c.F.Kind, "mta-") {
+		return judgeMtA(x, fr, c, out0(c))
+	}
+	if strings.HasPrefix(c.F.Kind, "redeal:") {
+		return judgeRedeal(x, fr, c, out0(c))
+	}
+	covered := coveredFieldKind(c.F.MsgType, c.F.Field.Name, c.F.Kind) && (c.F.Kind == "+1" || c.F.Kind == "neg" || c.F.Kind == "rand" || c.F.Kind == "other" || c.F.Kind == "remove" || strings.HasPrefix(c.F.Kind, "commit:") || strings.HasPrefix(c.F.Kind, "bits-"))
 	out := ev.Outcome{Label: fmt.Sprintf("%s %s.%s kind=%s dev=%d", c.Run.Proto, shortType(c.F.MsgType), c.F.Field.Name, c.F.Kind, c.F.Deviator)}
 	out.Nontrivial = fr.consumed > 0
 	if fr.applied == 0 || fr.na {
@@ -576,6 +621,9 @@ func enumCells(run protoRun, kinds []string, listKinds []string, salt int, maxPe
 			}
 			for _, k := range kinds {
 				cells = append(cells, faultCase{Run: run, F: faultSpec{Deviator: e.From, MsgType: e.Type, Field: ref, Kind: k, Recip: recip, Salt: salt}})
+			}
+			if len(kinds) > 0 && kinds[0] == "+1" && negField(run, ref.Name) {
+				cells = append(cells, faultCase{Run: run, F: faultSpec{Deviator: e.From, MsgType: e.Type, Field: ref, Kind: "neg", Recip: recip, Salt: salt}})
 			}
 			if ref.Name == "paillier_n" || ref.Name == "n_tilde" { // under-sized parameters
 				for _, k := range []string{"bits-2047", "bits-1024"} {
@@ -792,6 +840,319 @@ func runWeakParams(c faultCase) ev.Outcome {
 	if p := judgeHonest(x, dev, false, "C05"); p != nil {
 		out.Err = fmt.Errorf("%s, party %d brings %d-bit parameters: %s", run, dev, bits, p.msg)
 		out.Sig = fmt.Sprintf("%s:weak-params:%s", p.sig, run.Proto)
+	}
+	return out
+}
+
+
+func out0(c faultCase) ev.Outcome {
+	return ev.Outcome{Label: fmt.Sprintf("%s %s kind=%s dev=%d", c.Run.Proto, shortType(c.F.MsgType), c.F.Kind, c.F.Deviator)}
+}
+
+// signingSSID reproduces the session id of an ECDSA signing session from public data (it is a fact of
+// the wire protocol: every signer derives it the same way); needed by a deviator that builds its own
+// consistent MtA responses.
+func signingSSID(x *runCtx, sub eckeygen.LocalPartySaveData) []byte {
+	p := x.cv.EC.Params()
+	list := []*big.Int{p.P, p.N, p.B, p.Gx, p.Gy}
+	list = append(list, x.ids.Keys()...)
+	flat, _ := crypto.FlattenECPoints(sub.BigXj)
+	list = append(list, flat...)
+	list = append(list, sub.NTildej...)
+	list = append(list, sub.H1j...)
+	list = append(list, sub.H2j...)
+	list = append(list, big.NewInt(1), big.NewInt(0))
+	return common.SHA512_256i(list...).Bytes()
+}
+
+// alterMtA: the deviator answers one peer's MtA with a response it built itself: internally consistent
+// (the library's own prover, for the statement the deviator really uses) but with a multiplier or mask
+// far outside the range Bob's proof has to enforce -- or, as calibration, with an in-range multiplier
+// (then the proof must be accepted, which shows the harness derives the session context correctly).
+func (fr *faultRun) alterMtA(d *sim.Delivery) ([]byte, bool) {
+	f := fr.c.F
+	x := fr.x
+	dev, victim := f.Deviator, d.To
+	var r1 *sim.Emit
+	for _, e := range x.net.Emits {
+		if e.From == victim && e.Type == pES+"SignRound1Message1" && len(e.To) == 1 && e.To[0] == dev {
+			r1 = e
+		}
+	}
+	if r1 == nil {
+		return nil, false
+	}
+	sub := eckeygen.BuildLocalSaveDataSubset(x.heldEC[dev], x.ids)
+	cA := new(big.Int).SetBytes(readField(r1.Bytes, fieldRef{"c", -1}))
+	q := x.cv.Q
+	pkA := sub.PaillierPKs[victim]
+	session := append(signingSSID(x, sub), big.NewInt(int64(dev)).Bytes()...)
+	wc := strings.HasPrefix(f.Kind, "mta-bobwc:")
+	variant := f.Kind[strings.Index(f.Kind, ":")+1:]
+	w, bigWs := ecsigning.PrepareForSigning(x.cv.EC, dev, len(x.ids), x.heldEC[dev].Xi, sub.Ks, sub.BigXj)
+	mult := randBelow(q) // the multiplier the deviator really uses
+	if wc {
+		mult = new(big.Int).Set(w)
+	}
+	mask := randBelow(pow(q, 5))
+	switch variant {
+	case "huge-multiplier":
+		mult = new(big.Int).Add(mult, new(big.Int).Lsh(q, 1640)) // = mult mod q, about 2^1896
+	case "huge-mask":
+		mask = new(big.Int).Lsh(pow(q, 7), 4)
+	case "consistent": // in range: calibration
+	}
+	cMask, r, err := pkA.EncryptAndReturnRandomness(rand.Reader, mask)
+	if err != nil {
+		return nil, false
+	}
+	c2, err := pkA.HomoMult(mult, cA)
+	if err != nil {
+		return nil, false
+	}
+	c2, _ = pkA.HomoAdd(c2, cMask)
+	var proofBz [][]byte
+	if wc {
+		pf, err := mta.ProveBobWC(session, x.cv.EC, pkA, sub.NTildej[victim], sub.H1j[victim], sub.H2j[victim], cA, c2, mult, mask, r, bigWs[dev], rand.Reader)
+		if err != nil {
+			return nil, false
+		}
+		b := pf.Bytes()
+		proofBz = b[:]
+	} else {
+		pf, err := mta.ProveBob(session, x.cv.EC, pkA, sub.NTildej[victim], sub.H1j[victim], sub.H2j[victim], cA, c2, mult, mask, r, rand.Reader)
+		if err != nil {
+			return nil, false
+		}
+		b := pf.Bytes()
+		proofBz = b[:]
+	}
+	cName, pName := "c1", "proof_bob"
+	if wc {
+		cName, pName = "c2", "proof_bob_wc"
+	}
+	out, err := rewriteWire(d.E.Bytes, func(m protoreflect.Message) {
+		setField(m, fieldRef{cName, -1}, c2.Bytes())
+		fd := m.Descriptor().Fields().ByName(protoreflect.Name(pName))
+		l := m.Mutable(fd).List()
+		l.Truncate(0)
+		for _, b := range proofBz {
+			l.Append(protoreflect.ValueOfBytes(b))
+		}
+	})
+	if err != nil {
+		return nil, false
+	}
+	return out, true
+}
+
+// judgeMtA: the calibration variant must get past the victim's round 3 (no abort there); the out-of-range
+// variants must make the victim abort naming exactly the deviator (the value is covered by Bob's proof).
+func judgeMtA(x *runCtx, fr *faultRun, c faultCase, out ev.Outcome) ev.Outcome {
+	out.Nontrivial = fr.consumed > 0
+	if fr.applied == 0 {
+		out.Label = "not-applied " + out.Label
+		out.Nontrivial = false
+		return out
+	}
+	victim := c.F.Recip
+	variant := c.F.Kind[strings.Index(c.F.Kind, ":")+1:]
+	var verr *tss.Error
+	if len(x.net.Nodes[victim].Errs) > 0 {
+		verr = x.net.Nodes[victim].Errs[0]
+	}
+	if variant == "consistent" {
+		if verr != nil && verr.Round() <= 3 {
+			out.Label = "uncalibrated " + out.Label + " (the victim rejected an in-range self-built response: session context not reproduced)"
+			out.Nontrivial = false
+			return out
+		}
+		out.Label += " (calibrated: accepted in round 3)"
+		if p := judgeHonest(x, c.F.Deviator, false, "C05"); p != nil {
+			out.Err = fmt.Errorf("%s, deviator %d answers the MtA with another in-range multiplier: %s", c.Run, c.F.Deviator, p.msg)
+			out.Sig = fmt.Sprintf("%s:%s:%s", p.sig, shortType(c.F.MsgType), c.F.Kind)
+		}
+		return out
+	}
+	if p := judgeHonest(x, c.F.Deviator, true, "C05"); p != nil {
+		out.Err = fmt.Errorf("%s, deviator %d answers party %d's MtA with a consistent response whose %s is out of range: %s", c.Run, c.F.Deviator, victim, variant, p.msg)
+		out.Sig = fmt.Sprintf("%s:%s:%s", p.sig, shortType(c.F.MsgType), c.F.Kind)
+	}
+	return out
+}
+
+
+type cmtPair struct {
+	C *big.Int
+	D []*big.Int
+}
+
+// alterRedeal: the deviator in key generation deals a polynomial of the harness' choosing, consistently
+// in all three places (round-1 commitment, round-2 decommitment, every peer's share; for EdDSA also the
+// Schnorr proof of the constant term). Variants: "consistent" (a perfectly good dealing: calibration, the
+// run must complete), "degree+1" (one coefficient too many, shares evaluated on the longer polynomial),
+// "degree-1" (one coefficient too few).
+func (fr *faultRun) alterRedeal(d *sim.Delivery) ([]byte, bool) {
+	f := fr.c.F
+	x := fr.x
+	q := x.cv.Q
+	variant := strings.TrimPrefix(f.Kind, "redeal:")
+	if fr.redealPoly == nil {
+		deg := x.t
+		switch variant {
+		case "degree+1":
+			deg = x.t + 1
+		case "degree-1":
+			deg = x.t - 1
+			if deg < 0 {
+				deg = 0
+			}
+		}
+		for i := 0; i <= deg; i++ {
+			fr.redealPoly = append(fr.redealPoly, add(randBelow(add(q, -1)), 1))
+		}
+		var flat []*big.Int
+		for _, a := range fr.redealPoly {
+			p := crypto.ScalarBaseMult(x.cv.EC, a)
+			flat = append(flat, p.X(), p.Y())
+		}
+		cd := cmtNew(randBelow(new(big.Int).Lsh(one, 256)), flat)
+		fr.redealCmt = &cmtPair{C: cd.C, D: cd.D}
+	}
+	eval := func(id *big.Int) *big.Int {
+		r := new(big.Int)
+		xx := new(big.Int).Mod(id, q)
+		for i := len(fr.redealPoly) - 1; i >= 0; i-- {
+			r.Mul(r, xx)
+			r.Add(r, fr.redealPoly[i])
+			r.Mod(r, q)
+		}
+		return r
+	}
+	var out []byte
+	var err error
+	switch {
+	case strings.HasSuffix(d.E.Type, "KGRound1Message"):
+		if b, ok := fr.cache[d.E]; ok {
+			return b, true
+		}
+		out, err = rewriteWire(d.E.Bytes, func(m protoreflect.Message) {
+			setField(m, fieldRef{"commitment", -1}, fr.redealCmt.C.Bytes())
+		})
+		fr.cache[d.E] = out
+	case strings.HasSuffix(d.E.Type, "KGRound2Message2"):
+		if b, ok := fr.cache[d.E]; ok {
+			return b, true
+		}
+		out, err = rewriteWire(d.E.Bytes, func(m protoreflect.Message) {
+			fd := m.Descriptor().Fields().ByName("de_commitment")
+			l := m.Mutable(fd).List()
+			l.Truncate(0)
+			for _, v := range fr.redealCmt.D {
+				b := v.Bytes()
+				if len(b) == 0 {
+					b = []byte{0}
+				}
+				l.Append(protoreflect.ValueOfBytes(b))
+			}
+			if x.p.edd() { // fresh Schnorr proof for the new constant term, bound to ssid || index
+				pr := x.cv.EC.Params()
+				list := []*big.Int{pr.P, pr.N, pr.Gx, pr.Gy}
+				list = append(list, x.ids.Keys()...)
+				list = append(list, big.NewInt(1), big.NewInt(0))
+				ctx := append(common.SHA512_256i(list...).Bytes(), big.NewInt(int64(f.Deviator)).Bytes()...)
+				V0 := crypto.ScalarBaseMult(x.cv.EC, fr.redealPoly[0])
+				pf, e := schnorr.NewZKProof(ctx, fr.redealPoly[0], V0, rand.Reader)
+				if e == nil {
+					setField(m, fieldRef{"proof_alpha_x", -1}, pf.Alpha.X().Bytes())
+					setField(m, fieldRef{"proof_alpha_y", -1}, pf.Alpha.Y().Bytes())
+					setField(m, fieldRef{"proof_t", -1}, pf.T.Bytes())
+				}
+			}
+		})
+		fr.cache[d.E] = out
+	case strings.HasSuffix(d.E.Type, "KGRound3Message"):
+		// the Paillier-modulus proof is bound to the group public key, which the honest parties compute from
+		// the re-dealt constant term: redo it for that key with the deviator's own Paillier secret key
+		if b, ok := fr.cache[d.E]; ok {
+			return b, true
+		}
+		pub := crypto.ScalarBaseMult(x.cv.EC, fr.redealPoly[0])
+		seen := 0
+		for _, e := range x.net.Emits {
+			if e.From == f.Deviator || !strings.HasSuffix(e.Type, "KGRound2Message2") {
+				continue
+			}
+			var v0 *crypto.ECPoint
+			_, _ = rewriteWire(e.Bytes, func(m protoreflect.Message) {
+				l := m.Get(m.Descriptor().Fields().ByName("de_commitment")).List()
+				if l.Len() >= 3 {
+					v0, _ = crypto.NewECPoint(x.cv.EC, new(big.Int).SetBytes(l.Get(1).Bytes()), new(big.Int).SetBytes(l.Get(2).Bytes()))
+				}
+			})
+			if v0 == nil {
+				return nil, false
+			}
+			if pub, err = pub.Add(v0); err != nil {
+				return nil, false
+			}
+			seen++
+		}
+		if seen != len(x.net.Nodes)-1 {
+			return nil, false // held until every honest reveal is on the wire
+		}
+		proof := x.pre[f.Deviator].PaillierSK.Proof(x.net.Nodes[f.Deviator].ID.KeyInt(), pub)
+		out, err = rewriteWire(d.E.Bytes, func(m protoreflect.Message) {
+			l := m.Mutable(m.Descriptor().Fields().ByName("paillier_proof")).List()
+			l.Truncate(0)
+			for _, v := range proof {
+				l.Append(protoreflect.ValueOfBytes(v.Bytes()))
+			}
+		})
+		fr.cache[d.E] = out
+	case strings.HasSuffix(d.E.Type, "KGRound2Message1"):
+		share := eval(x.net.Nodes[d.To].ID.KeyInt())
+		out, err = rewriteWire(d.E.Bytes, func(m protoreflect.Message) {
+			b := share.Bytes()
+			if len(b) == 0 {
+				b = []byte{0}
+			}
+			setField(m, fieldRef{"share", -1}, b)
+		})
+	}
+	if err != nil || out == nil {
+		return nil, false
+	}
+	return out, true
+}
+
+func judgeRedeal(x *runCtx, fr *faultRun, c faultCase, out ev.Outcome) ev.Outcome {
+	out.Nontrivial = fr.consumed > 0
+	variant := strings.TrimPrefix(c.F.Kind, "redeal:")
+	dev := c.F.Deviator
+	if variant == "consistent" {
+		// a perfectly good dealing: every honest party must finish with valid, consistent key data
+		for _, nd := range x.net.Nodes {
+			if nd.Idx != dev && (nd.Errored() || !nd.Finished()) {
+				why := "not finished"
+				if nd.Errored() {
+					why = fmt.Sprint(nd.Errs[0])
+				}
+				out.Label = "uncalibrated " + out.Label + " (honest parties did not accept a correct re-dealing: " + why + ")"
+				out.Nontrivial = false
+				return out
+			}
+		}
+		out.Label += " (calibrated: accepted)"
+		if p := judgeHonest(x, dev, false, "C05"); p != nil {
+			out.Err = fmt.Errorf("%s, deviator %d deals another (correct) polynomial: %s", c.Run, dev, p.msg)
+			out.Sig = fmt.Sprintf("%s:redeal:consistent", p.sig)
+		}
+		return out
+	}
+	if p := judgeHonest(x, dev, true, "C05"); p != nil {
+		out.Err = fmt.Errorf("%s, deviator %d deals a polynomial of the wrong degree (%s), consistently committed, revealed and shared: %s", c.Run, dev, variant, p.msg)
+		out.Sig = fmt.Sprintf("%s:%s", p.sig, c.F.Kind)
 	}
 	return out
 }
